@@ -101,7 +101,11 @@ def run(tier, seed):
                rule="random non-recursive FGG specs (harness/gen.py: <=4 nonterminals, <=3 rules each, <=5 nodes, <=4 edges, domain sizes 1-3, weights from {0,1/4,1/2,1,2,3,inf}, forced shapes with prob ~0.15) x {Real f64, Real f32, Log, Viterbi, Bool} x method rotating over fixed-point/newton/linear x explicit/implicit/mixed ids; every entry of sum_products compared; distinct_nontrivial = distinct specs with >= 2 rules or a forced shape",
                feature_histogram=feats, size_histogram=stats, kernel_reevaluated=nk,
                samples=[dict(spec=gen.spec_jsonable(s0[0]), semiring=repr(s0[1]), method=s0[2], observed=s0[3])] if s0 else [],
-               open_items=["C01_spe_eq_rule_val / C01_driver (code-shaped model = definition) are checked per case (verdict 20) until proved"])
+               open_items=[
+                   "proved (Props/C01.v, generic in the semiring): C01_check_oracle_sound (verdict 0 => observation accepted against Zk at #nonterminals), C01_Zk_is_tree_sum, C01_enum_trees_spec/NoDup, C02_kleene_is_bounded_depth, C01_Zk_stable, C01_rank_normalise, C01_nonrec_all_trees, C01_spe_eq_rule_val (+ _total_env, _none_is_zero, _body_eq), C01_sum_products_nonrec_Zk, C01_Ztab_is_Zk, C01_sum_products_eq_spec, shape corollaries, Bool instance",
+                   "open (tier B): composition with C19 is reduced to one implication: C01_sum_products_eq_spec_scc holds for every order with scc_ok (nt_graph G) order = true and nonrecursive_order G order = true (proved); missing is scc g = Some cs -> scc_ok g cs = true (full Tarjan theorem, C19) and closed (nt_graph G); until then covered per case by verdict 20 (code-shaped model table = Ztab table)",
+                   "open: instances of C01_sum_products_eq_spec for ereal_ops / trop_ops wait for the sr_ring law proofs of C08 (the theorems keep the law premise explicit; 0 * inf = 0 is the annihilation law of that instance)",
+                   "open: the float kernels of torch (einsum, logsumexp) are compared numerically per case, not proved"])
     return cov, violations
 
 def replay(path):
